@@ -103,6 +103,24 @@ def _apis(module):
     }
 
 
+_MSGS = []
+
+
+def _check_messages():
+    """the messages of the ValueErrors raised in xfab/checks.py (read from the current source)"""
+    if not _MSGS:
+        import ast
+        from pyvc.source import Source
+        for node in ast.walk(Source().module('checks')):
+            if isinstance(node, ast.Raise) and isinstance(node.exc, ast.Call) and node.exc.args:
+                a = node.exc.args[0]
+                for c in ast.walk(a):
+                    if isinstance(c, ast.Constant) and isinstance(c.value, str) and len(c.value) > 8:
+                        _MSGS.append(c.value)
+                        break
+    return _MSGS
+
+
 def bounded_guards(module):
     """native: with the switch on, clearly invalid orientation matrices are rejected and clearly valid ones
     (float32-rounded rotations, perturbations < 1e-7) are accepted; with it off nothing is rejected and valid
@@ -120,7 +138,15 @@ def bounded_guards(module):
         else:
             V = R
         B_ = R.copy()
-        B_[rng.randrange(3), rng.randrange(3)] += rng.choice([-1, 1]) * rng.uniform(1e-3, 1.0)
+        bad_kind = rng.choice(['entry', 'entry', 'mirror', 'negated', 'axis_swap'])
+        if bad_kind == 'entry':
+            B_[rng.randrange(3), rng.randrange(3)] += rng.choice([-1, 1]) * rng.uniform(1e-3, 1.0)
+        elif bad_kind == 'mirror':          # orthonormal but improper: only the determinant test can reject it
+            B_ = R.dot(np.diag([[1, 1, -1], [1, -1, 1], [-1, 1, 1]][rng.randrange(3)]))
+        elif bad_kind == 'negated':
+            B_ = -R
+        else:
+            B_ = R[:, [[1, 0, 2], [0, 2, 1], [2, 1, 0]][rng.randrange(3)]]
         name = rng.choice(sorted(apis))
         api = apis[name]
         try:
@@ -128,6 +154,10 @@ def bounded_guards(module):
             try:
                 on = api(V)
             except ValueError as e:
+                if not any(str(e).startswith(m_[:25]) for m_ in _check_messages()):
+                    # not an input check: u_to_rod's own domain limit at half turns, u_to_euler's arccos of 1+1e-7 at
+                    # gimbal lock for a perturbed matrix, ... (the business of C03, which quantifies over exact rotations)
+                    return None
                 return {'api': module + '.' + name, 'kind': kind, 'input': V.tolist(), 'problem': 'valid input rejected: %s' % e}
             if name not in ('ub_to_u_b', 'ubi_to_u_and_eps'):
                 try:
@@ -140,12 +170,13 @@ def bounded_guards(module):
                 off = api(V)
                 api(B_)
             except ValueError as e:
-                if 'Wrong trace' not in str(e):
-                    return {'api': module + '.' + name, 'problem': 'ValueError with the switch off: %s' % e}
+                # only the input checks' own errors are switched off; a function may still fail on garbage for its own reasons
+                if any(str(e).startswith(m_[:25]) for m_ in _check_messages()):
+                    return {'api': module + '.' + name, 'problem': 'input check raised with the switch off: %s' % e}
                 off = on
             a = np.concatenate([np.ravel(np.asarray(x, float)) for x in (on if isinstance(on, tuple) else (on,))])
             b = np.concatenate([np.ravel(np.asarray(x, float)) for x in (off if isinstance(off, tuple) else (off,))])
-            if a.shape != b.shape or not np.array_equal(a, b):
+            if a.shape != b.shape or not np.array_equal(a, b, equal_nan=True):
                 return {'api': module + '.' + name, 'problem': 'different values with the switch off'}
         finally:
             xfab.CHECKS.activated = True
@@ -156,6 +187,7 @@ def units(tier):
     us = [GroundUnit('checks.switch', switch_obligations, [{'module': 'checks', 'name': '_checkState'}]),
           GroundUnit('guards.syntactic', guard_sites),
           FuncUnit('checks', '_check_rotation_matrix#rejects_invalid'),
+          FuncUnit('checks', '_check_rotation_matrix#never_rejects_valid'),
           FuncUnit('checks', '_check_euler_angles'), FuncUnit('checks', '_check_ubi_matrix')]
     for m in ('tools', 'laue', 'symmetry'):
         us.append(BoundedUnit(m + '.guarded_apis', bounded_guards(m), 600, 20000,
